@@ -2,6 +2,7 @@ package lssim
 
 import (
 	"fmt"
+	"strings"
 	"time"
 
 	"github.com/PowerDNS/lmdb-go/lmdb"
@@ -646,4 +647,110 @@ func init() {
 		env.Res.Counts = map[string]int{"instances_at_start": len(atStart), "ro_loaded": len(ro.LoadedEvents())}
 		env.Res.Nontrivial = returned && len(atStart) >= 2
 	}})
+}
+
+// fleet-hostile (C08): honest instances plus a hostile publisher that places
+// undecodable and adversarial blobs under a foreign instance name and under
+// the honest instances' own names. After the faults stop, honest traffic
+// must still flow: the newest decodable snapshot of every instance is merged
+// everywhere and every instance still publishes its own data.
+type monHostile struct {
+	BaseMonitor
+	placed int
+	bad    map[string]bool
+}
+
+func (m *monHostile) StepDone(f *Fleet, actor Actor) {
+	if f.Phase != "workload" || !f.T.Chance("hostile-put", 60) {
+		return
+	}
+	if m.bad == nil {
+		m.bad = map[string]bool{}
+	}
+	inst := "h"
+	if f.T.Chance("hostile-as-honest", 400) {
+		inst = f.Nodes[f.T.Choose("hostile-inst", len(f.Nodes))].Name
+	}
+	ts := time.Now()
+	name := snapName(DBName, inst, ts, "")
+	name = strings.Replace(name, "__G1", "__GH", 1) // a generation id no honest instance uses: no name collisions
+	blob, kind := hostileBlob(f.T, validBlob(DBName, inst, ts, 1))
+	if kind == "gzip-zeros" {
+		blob = GzipBytes(make([]byte, 4096))
+	}
+	ok, _ := decodeFullyNoPanicCheck(blob)
+	if ok {
+		// The property is about blobs that cannot be decoded. A decodable
+		// forgery is ordinary remote data (possibly of a format version this
+		// build must refuse, which is C18's subject).
+		return
+	}
+	f.Bucket.Put(name, blob, "hostile")
+	m.placed++
+	if !ok {
+		m.bad[name] = true
+	}
+	f.Sim.Logf("  hostile blob %s kind=%s decodable=%v", name, kind, ok)
+	f.Sim.Probe("hostile:" + kind)
+}
+
+func decodeFullyNoPanicCheck(blob []byte) (ok bool, p string) {
+	defer func() {
+		if r := recover(); r != nil {
+			ok, p = false, "panic"
+		}
+	}()
+	return decodeFully(blob)
+}
+
+func (m *monHostile) AtEnd(f *Fleet) {
+	cache := map[string]Logical{}
+	for name := range m.bad {
+		cache[name] = nil // undecodable for this build
+	}
+	newest := f.NewestDecodableByInstance(cache)
+	if why := f.PremiseWith(newest); why != "" {
+		for k := range f.RaceKeys {
+			if strings.Contains(why, strings.SplitN(k, "/", 2)[1]) {
+				f.Sim.Probe("c08-premise-blocked-by-known-race")
+				return
+			}
+		}
+		sig := "honest-traffic-blocked"
+		if strings.Contains(why, "has not merged") {
+			sig = "newest-decodable-not-merged"
+		} else if strings.Contains(why, "unpublished") || strings.Contains(why, "uncaptured") {
+			sig = "uploads-blocked"
+		}
+		f.Violate(Violation{"C08", "honest-traffic-flows", sig,
+			fmt.Sprintf("after %d hostile/corrupt blobs and a fault-free drain: %s", m.placed, why)})
+	}
+}
+
+func init() {
+	RegisterProfile(fleetProfile("fleet-hostile", "C08", FleetRun{
+		Gen: func(t *Tape) FleetCfg {
+			c := swarmBase(t)
+			c.N = 2 + t.Choose("cfg-n11", 2)
+			swarmFaults(t, &c)
+			c.CrashRate = pick(t, "cfg-crash11", 8, 0, 20)
+			c.DrainFactor = 20
+			return c
+		},
+		Mons: func(f *Fleet) []Monitor { return []Monitor{&monHostile{}} },
+		Custom: func(f *Fleet) {
+			f.RunWorkload()
+			if !f.Failed() {
+				// every undecodable blob that is newer than an instance's
+				// newest decodable one costs one listing round to skip
+				m := f.Mon[0].(*monHostile)
+				f.Drain(f.Cfg.DrainTime() + time.Duration(m.placed)*(f.Cfg.StPoll+f.Cfg.Retry+f.Cfg.Poll))
+			}
+		},
+		Post: func(f *Fleet, r *RunResult) {
+			m := f.Mon[0].(*monHostile)
+			r.Counts["hostile_blobs"] = m.placed
+			r.Nontrivial = len(m.bad) > 0 && f.Stats.Loads > 0
+		},
+	}))
 }
